@@ -46,6 +46,8 @@ func specialC20(p *Program, tier string) []UnitSpec {
 	if tier != "thorough" {
 		cfg.QuickLoopCap = 1
 	} else {
+		cfg.QuickLoopCap = 2
+		cfg.MaxPaths = 80000
 		cfg.UnitSec = 3000
 	}
 	for _, fn := range p.EntryPoints() {
@@ -76,6 +78,11 @@ func specialC18(p *Program, tier string) []UnitSpec {
 	cfg.FrameSummary = true
 	cfg.Safety = false
 	cfg.QuickLoopCap = 1
+	if tier == "thorough" {
+		cfg.QuickLoopCap = 2
+		cfg.MaxPaths = 80000
+		cfg.UnitSec = 3000
+	}
 	// receivers are arbitrary values of their type; where a callee under
 	// contract requires a representation invariant of a component (CertInv,
 	// KacInv, ...) the invariant is assumed from there on: C18 is about
@@ -179,9 +186,12 @@ func RunProperty(repo, verifDir, prop, tier string, seed int) int {
 	cfg := DefaultConfig()
 	cfg.QuickLoopCap = 1
 	if tier == "thorough" {
+		// deeper than quick: count loops (unroll 16) explored to 2 back edges
+		// (3 bodies) - complete unrolling of 16 x 16 keys and leases is out of
+		// reach (path explosion) - longer solver budgets, the _T lemmas
 		cfg.QueryMs = 30000
-		cfg.MaxPaths = 20000
-		cfg.QuickLoopCap = 0
+		cfg.MaxPaths = 80000
+		cfg.QuickLoopCap = 2
 		cfg.UnitSec = 3000
 	}
 	// orphaned contracts are a fault of the check, not a pass
